@@ -6,6 +6,7 @@ out-of-bounds access or use of an invalid handle (DESIGN.md section 3, C08):
   REC-GUARD   inside each recoder every write through the buffer is preceded by a comparison of *len whose failing side leaves
               (the bound must still be in force at the write: its operands unchanged since the test; stores whose index is
               itself compared with *len are accepted individually)
+  REC-EMPTY   (c08_empty.py) the top digit buf[len - 1] of a recoding is read only where the recoded integer is known non-zero
   WRAP        (c08_wrap.py) an unsigned subtraction that bounds a loop or decides a comparison cannot wrap
   WRITE-GUARD (c08_wguard.py) no write through a caller's (buffer, capacity) pair before the capacity has been examined
   CAP         a digit store into a multiple-precision integer is preceded by a capacity request that covers the index
@@ -840,7 +841,8 @@ def analyse(ctx, prog, chk, dyn=False):
         out["copy_in"] = rule_copy_in(ctx, prog, chk)
         out["n0"] = rule_n0(ctx, prog, chk)
         out["div0"] = rule_div0(ctx, prog, chk)
-        from . import c08_wrap, c08_wguard
+        from . import c08_wrap, c08_wguard, c08_empty
+        out["empty"] = c08_empty.analyse(ctx, prog, chk)
         out["wrap"] = c08_wrap.analyse(ctx, prog, chk)
         out["wguard"] = c08_wguard.analyse(ctx, prog, chk)
     return out
@@ -860,6 +862,7 @@ def run(ctx, chk):
     d = analyse(ctx, ctx.program("DYN"), chk, dyn=True)
     chk.floor("TYPESTATE", "handle variables (DYN)", d["typestate"], 1500)
     chk.floor("REALLOC-KEEP", "reallocations (DYN)", d["realloc"], 1)
+    chk.floor("REC-EMPTY", "accesses to the top digit of a recoding (BASE)", c["empty"], 4)
     chk.floor("WRAP", "unsigned subtractions in conditions (BASE)", c["wrap"], 20)
     chk.floor("WRITE-GUARD", "writes through caller buffers with a capacity (BASE)", c["wguard"], 120)
     if chk.tier == "thorough":
